@@ -44,7 +44,9 @@ def main(argv):
     except facts_mod.FactsError as e:
         print("FACTS ERROR: %s" % e)
         return 2
-    progs = {c: mir.Program(d) for c, d in fs.items()}
+    import inline
+
+    progs = {c: mir.Program(inline.normalise(d)) for c, d in fs.items()}
     mod = importlib.import_module("props." + prop.lower())
     ctx = Ctx(prop, progs, tier)
     for cfg in sorted(progs):
